@@ -1,5 +1,7 @@
 #![allow(dead_code, unused_mut)]
 mod c01;
+mod c08;
+mod c09;
 mod c10;
 mod c11;
 mod c12;
@@ -10,6 +12,7 @@ mod monitor;
 mod scen;
 mod sim;
 mod t1props;
+mod t2;
 mod selftest;
 
 use common::*;
@@ -51,6 +54,8 @@ fn main() {
                 "C04" => t1props::run_c04(&ctx),
                 "C06" => t1props::run_c06(&ctx),
                 "C17" => t1props::run_c17(&ctx),
+                "C08" => c08::run(&ctx),
+                "C09" => c09::run(&ctx),
                 "C10" => c10::run(&ctx),
                 "C11" => c11::run(&ctx),
                 "C12" => c12::run(&ctx),
@@ -71,6 +76,10 @@ fn main() {
             println!("replaying {} (property {}, rule {})", h, v["property"], v["rule"]);
             let violated = if h.starts_with("c11.") {
                 c11::replay(&v)
+            } else if h.starts_with("c08.") {
+                c08::replay(&v)
+            } else if h == "c09.pair" {
+                c09::replay(&v)
             } else if h.starts_with("c12.") {
                 c12::replay(&v)
             } else if h.starts_with("c10.") {
